@@ -18,9 +18,14 @@ func checkC07(r *Run) {
 	r3 := r.Rule("R-C07-3", "look-up consumes the entry on every path; serve hands over with a non-blocking send")
 	r4 := r.Rule("R-C07-4", "success (nil error) only through the request's own waiter")
 	r5 := r.Rule("R-C07-5", "SUBACK shape: count equality dominates the copy-back; ErrInvalidSubAck otherwise; same index both sides")
-	r1.Floor(7)
-	r4.Floor(6)
-	sites := c.sitesOrLost(r1)
+	r1.Floor(5)
+	r4.Floor(4)
+	var sites []*reqSite
+	for _, s := range c.sitesOrLost(r1) {
+		if s.Kind == "publish" || s.Kind == "pubrel" || s.Kind == "subscribe" || s.Kind == "unsubscribe" {
+			sites = append(sites, s) // the statement speaks of Publish, Subscribe and Unsubscribe
+		}
+	}
 	c.ruleRegisterBeforeWrite(r1, sites)
 	c.ruleThreeWaySelect(nil, r4, sites)
 	c.ruleServeRouting(r2, r3)
